@@ -5,20 +5,28 @@
      {a:"Begin"|"RC"|"Cas"|"Ack", w, k, p, S}            S = snapshot of the REAL state after the step:
      {a:"Quiesce", feed, S}                                cas (rank), tree [[rev, parent, deleted]], cur, seq, unused, recent   (raw _sync)
      {a:"Abort"}                                           last, rel (allocator / _sync:unusedSeq docs), pc, kind, parg, res (per writer)
-   Pass P: observable variables := logged real state, ghosts by Ghost*, hidden locals untouched; the C05 predicates.
-   Pass C: every step is additionally an instance of the spec action from the previous real state (hidden writer
-           locals evolve by the spec); auxiliary invariants too. *)
+   Pass P (PSpec): observable variables := logged real state, ghosts by Ghost*, hidden writer locals untouched.  The C05
+           predicates are evaluated by TLC on EVERY recorded state; failures are collected per behaviour in TLC register 2
+           (<<behaviour, predicate, line>>) and printed by the POSTCONDITION - not stop-on-first, because a behaviour
+           that runs through a known deviation of the real code must not hide the behaviours recorded after it.
+   Pass C (CSpec): every step is additionally an instance of the spec action from the previous real state (hidden writer
+           locals evolve by the spec, which also tells which named deviation the real code took).  Register 3 collects
+           <<behaviour, "CONF", deviations>> for behaviours that conform to the end and <<behaviour, "DIVERGED", line>>
+           for the first line no spec action explains; auxiliary invariants are collected as <<behaviour, "AUX:"name, line>>. *)
 EXTENDS DocUpdate, TraceLib
 
 WSets == {{1}}
-VARIABLE l
-tvars == <<vars, l>>
+VARIABLES l, bi, diverged
+tvars == <<vars, l, bi, diverged>>
+
+ASSUME TLCSet(2, {}) /\ TLCSet(3, {})
 
 S == Trace[l]
 SetOf(x) == {x[i] : i \in 1..Len(x)}
 TreeOf(x) == [r \in {x[i][1] : i \in 1..Len(x)} |->
                 LET i == CHOOSE j \in 1..Len(x) : x[j][1] = r IN [p |-> x[i][2], d |-> (x[i][3] = 1)]]
 ResOf(r) == [cls |-> r.cls, rev |-> r.rev, seq |-> r.seq]
+FeedOf(x) == [i \in 1..Len(x) |-> [seq |-> x[i].seq, rev |-> x[i].rev]]
 
 Ev(a) == l <= TraceLen /\ Trace[l].a = a /\ l' = l + 1
 
@@ -28,46 +36,75 @@ LoggedAlloc  == last' = S.last /\ released' = SetOf(S.rel)
 LoggedW      == /\ pc' = [w \in Writers |-> S.pc[w]] /\ res' = [w \in Writers |-> ResOf(S.res[w])]
                 /\ kind' = [w \in Writers |-> S.kind[w]] /\ parg' = [w \in Writers |-> S.parg[w]]
 Logged == LoggedBucket /\ LoggedAlloc /\ LoggedW
-FeedOf(x) == [i \in 1..Len(x) |-> [seq |-> x[i].seq, rev |-> x[i].rev]]
 
-TInit == Init /\ l = 1
+TInit == Init /\ l = 1 /\ bi = -1 /\ diverged = FALSE
 
 Reset == /\ Ev("Reset")
          /\ allow' = S.allow /\ initLen' = S.n /\ initTomb' = S.tomb /\ ws' = 1..S.nw
          /\ Logged
          /\ match' = [w \in Writers |-> 0] /\ att' = [w \in Writers |-> 0] /\ loc' = [w \in Writers |-> NoLoc]
-         /\ dso' = [w \in Writers |-> 0] /\ uo' = [w \in Writers |-> <<>>] /\ dropped' = {}
+         /\ dso' = [w \in Writers |-> 0] /\ uo' = [w \in Writers |-> <<>>] /\ dropped' = {} /\ dev' = {} /\ top' = [seq |-> S.seq, rev |-> S.cur]
          /\ feed' = <<>> /\ quiesced' = FALSE
          /\ docSeqs' = <<>> /\ onDoc' = SetOf(S.iseq) /\ initSeq' = [i \in 1..Len(S.iseq) |-> S.iseq[i]]
-         /\ hist' = <<>>
+         /\ hist' = <<>> /\ bi' = S.beh /\ diverged' = FALSE
 (* pass C also requires the recorded initial state to be the model's initial state for that configuration *)
 ResetShape == /\ cas' = initLen' /\ cur' = initLen' /\ seq' = initLen' /\ last' = initLen' /\ unused' = {} /\ released' = {}
               /\ tree' = [i \in 1..initLen' |-> [p |-> i - 1, d |-> (initTomb' /\ i = initLen')]]
               /\ recent' = 1..initLen' /\ initSeq' = [i \in 1..initLen' |-> i]
               /\ \A w \in Writers : pc'[w] = "idle" /\ res'[w] = NoRes
-Abort == Ev("Abort") /\ UNCHANGED vars
 
 (* ---- pass P ---- *)
-PStep(a) == Ev(a) /\ Logged /\ UNCHANGED <<hidden, fd, hist>>
+PStep(a) == Ev(a) /\ Logged /\ UNCHANGED <<hidden, fd, hist, bi, diverged>>
 PBegin   == PStep("Begin") /\ GhostBegin(S.w)
 PRC      == PStep("RC")    /\ GhostReadAndCompute(S.w)
 PCas     == PStep("Cas")   /\ GhostCasWrite(S.w)
 PAck     == PStep("Ack")   /\ GhostAck(S.w)
-PQuiesce == Ev("Quiesce") /\ Logged /\ feed' = FeedOf(S.feed) /\ quiesced' = TRUE /\ UNCHANGED <<hidden, hist>> /\ GhostQuiesce
-PNext == Reset \/ Abort \/ PBegin \/ PRC \/ PCas \/ PAck \/ PQuiesce
+PQuiesce == Ev("Quiesce") /\ Logged /\ feed' = FeedOf(S.feed) /\ quiesced' = TRUE /\ UNCHANGED <<hidden, hist, bi, diverged>> /\ GhostQuiesce
+PAbort   == Ev("Abort") /\ UNCHANGED <<vars, bi, diverged>>
+PNext == Reset \/ PAbort \/ PBegin \/ PRC \/ PCas \/ PAck \/ PQuiesce
 PSpec == TInit /\ [][PNext]_tvars
 
+(* the property statement, predicate by predicate, on the recorded real state *)
+PFailing == {n \in {"NoLostAck", "OwnSequence", "OneChildPerParent", "LosersLeaveNoTrace", "RefusalsAreConflicts", "FeedAnnouncesFinal"} :
+               ~CASE n = "NoLostAck" -> NoLostAck
+                  [] n = "OwnSequence" -> OwnSequence
+                  [] n = "OneChildPerParent" -> OneChildPerParent
+                  [] n = "LosersLeaveNoTrace" -> LosersLeaveNoTrace
+                  [] n = "RefusalsAreConflicts" -> RefusalsAreConflicts
+                  [] n = "FeedAnnouncesFinal" -> FeedAnnouncesFinal}
+CollectP == bi < 0 \/ PFailing = {} \/ TLCSet(2, TLCGet(2) \cup {<<bi, n, l - 1>> : n \in PFailing})
+PProgress == Mark(l) /\ CollectP
+PAccept == PrintHWM /\ PrintT(<<"PVIOL", ToJson(TLCGet(2))>>)
+
 (* ---- pass C ---- *)
+CUnch    == UNCHANGED <<hist, bi, diverged>>
 CReset   == Reset /\ ResetShape
-CBegin   == Ev("Begin") /\ BeginOK(S.w, S.k, S.p) /\ ImplBegin(S.w, S.k, S.p) /\ Logged /\ GhostBegin(S.w) /\ UNCHANGED hist
-CRC      == Ev("RC")  /\ pc[S.w] = "begun" /\ ImplReadAndCompute(S.w) /\ Logged /\ GhostReadAndCompute(S.w) /\ UNCHANGED hist
-CCas     == Ev("Cas") /\ pc[S.w] = "computed" /\ ImplCasWrite(S.w) /\ Logged /\ GhostCasWrite(S.w) /\ UNCHANGED hist
-CAck     == Ev("Ack") /\ pc[S.w] \in {"committed", "failed"} /\ ImplAck(S.w) /\ Logged /\ GhostAck(S.w) /\ UNCHANGED hist
-CQuiesce == /\ Ev("Quiesce") /\ ~quiesced /\ \A w \in ws : pc[w] = "done"
-            /\ ImplQuiesce /\ Logged /\ feed' = FeedOf(S.feed) /\ GhostQuiesce /\ UNCHANGED hist
-CNext == CReset \/ CBegin \/ CRC \/ CCas \/ CAck \/ CQuiesce
+CBegin   == ~diverged /\ Ev("Begin") /\ BeginOK(S.w, S.k, S.p) /\ ImplBegin(S.w, S.k, S.p) /\ Logged /\ GhostBegin(S.w) /\ CUnch
+CRC      == ~diverged /\ Ev("RC")  /\ pc[S.w] = "begun" /\ ImplReadAndCompute(S.w) /\ Logged /\ GhostReadAndCompute(S.w) /\ CUnch
+CCas     == ~diverged /\ Ev("Cas") /\ pc[S.w] = "computed" /\ ImplCasWrite(S.w) /\ Logged /\ GhostCasWrite(S.w) /\ CUnch
+CAck     == ~diverged /\ Ev("Ack") /\ pc[S.w] \in {"committed", "failed", "errored"} /\ ImplAck(S.w) /\ Logged /\ GhostAck(S.w) /\ CUnch
+CQuiesce == /\ ~diverged /\ Ev("Quiesce") /\ ~quiesced /\ \A w \in ws : pc[w] = "done"
+            /\ ImplQuiesce /\ Logged /\ feed' = FeedOf(S.feed) /\ GhostQuiesce /\ CUnch
+CAny     == CBegin \/ CRC \/ CCas \/ CAck \/ CQuiesce
+(* a line no spec action explains (or a harness abort): the rest of the behaviour is skipped, validation resumes at the next Reset *)
+CDiverge == /\ ~diverged /\ l <= TraceLen /\ S.a # "Reset" /\ ~ENABLED CAny
+            /\ diverged' = TRUE /\ l' = l + 1 /\ UNCHANGED <<vars, bi>>
+CSkip    == /\ diverged /\ l <= TraceLen /\ S.a # "Reset" /\ l' = l + 1 /\ UNCHANGED <<vars, bi, diverged>>
+CNext == CReset \/ CAny \/ CDiverge \/ CSkip
 CSpec == TInit /\ [][CNext]_tvars
 
-Progress == Mark(l)
-Accept == PrintHWM
+AuxFailing == {n \in {"TypeOK", "SeqSane", "NotYetWritten", "CurIsWinner", "Accounted", "ModelExplainsP"} :
+                 ~CASE n = "TypeOK" -> TypeOK
+                    [] n = "SeqSane" -> M_SeqSane
+                    [] n = "NotYetWritten" -> NotYetWritten
+                    [] n = "CurIsWinner" -> CurIsWinner
+                    [] n = "Accounted" -> M_Accounted
+                    [] n = "ModelExplainsP" -> (M_NoLostAck /\ M_OwnSequence /\ M_OneChildPerParent /\ M_LosersLeaveNoTrace /\ M_RefusalsAreConflicts /\ M_FeedAnnouncesFinal)}
+CollectC ==
+  \/ bi < 0
+  \/ /\ (~diverged \/ TLCSet(3, TLCGet(3) \cup {<<bi, "DIVERGED", l - 1>>}))
+     /\ (diverged \/ AuxFailing = {} \/ TLCSet(3, TLCGet(3) \cup {<<bi, "AUX:" \o n, l - 1>> : n \in AuxFailing}))
+     /\ (~(quiesced /\ ~diverged) \/ TLCSet(3, TLCGet(3) \cup {<<bi, "CONF", dev, Leaked>>}))
+CProgress == Mark(l) /\ CollectC
+CAccept == PrintHWM /\ PrintT(<<"CREC", ToJson(TLCGet(3))>>)
 =============================================================================
